@@ -6,6 +6,8 @@ import Tw.Model.OnlineNet
 import Tw.Proofs.ConnProgress
 import Tw.Proofs.ConnTimed6
 import Tw.Proofs.ConnTimed7
+import Tw.Proofs.ConnOpen6
+import Tw.Proofs.ConnOpen7
 
 /-!
 # C02 — the connection makes progress: every call returns, the deadline is finite
@@ -29,7 +31,13 @@ the theorem is `conn7_deadline_finite_partial`, the counterexample `conn7_deadli
 delivered once, in order), from every state reachable under an arbitrary admissible prefix at most
 four fair rounds reach `quiescent` (everything handed over, queues and packets empty, no resend
 request pending); the bound is constant.  Handshake: `handshake6_fair` (two deliveries) and
-`handshake7_fair` (four deliveries) make the connector `Online` and `Ready`.  (c') **Timed fair suffix over two full connections** (`Tw/Model/NetSim.lean`, `World`: two complete
+`handshake7_fair` (four deliveries) make the connector `Online` and `Ready`.  (c'') **Handshake and online phase composed, from any reachable world**: `C02_open_progress6` (≤ 5 fair
+rounds) and `C02_open_progress7` (≤ 6 fair rounds): exactly one side has called `connect`, nobody is
+disconnected ⇒ the connector becomes online and `Ready`, everything is handed over and acknowledged,
+all queues empty.  These are the full progress statements of the property; the role hypothesis is
+necessary (`C02_simultaneous_open6_witness`).
+
+(c') **Timed fair suffix over two full connections** (`Tw/Model/NetSim.lean`, `World`: two complete
 `Conn6`/`Conn7` values incl. tokens and timers, clock, per-endpoint datagram histories — builder
 `connc01`): `C02_timed_progress6_partial`, `C02_timed_progress7_partial` — from every world reached by
 an admissible schedule from two fresh connections in which both sides are `Online`, four timed
@@ -321,6 +329,90 @@ example : (((NetSim.run (World.init proto7) busy7).bind (timedRounds () 4)).map 
 example : (((NetSim.run (World.init (proto6 false)) (busy6 false)).bind fun w =>
     fairRoundsT (P := proto6 false) [] P6.Alt.exact 4 (FairState.start w)).map fun s => s.w.settled) = some true := by
   decide +kernel
+
+/-! #### handshake + online phase, from any reachable world (0.6) -/
+
+/-- **an online connector has been told `Ready`** (0.6): in every reachable world a side that sent a
+`Connect` and is `Online` has `Ready` among its events (by C01 exactly once) -/
+theorem C02_ready_of_connector6 (tl : Bool) (sched : List (Move (proto6 tl))) (w : World (proto6 tl))
+    (hrun : NetSim.run (World.init (proto6 tl)) sched = some w) (s : Side) {t : Option Nat} {o : Tw.Conn.Online}
+    (h1 : (w.get s).conn.state = .online t o) (h2 : P6.hasConnect (w.get s)) :
+    Tw.Conn.Event.ready ∈ (w.get s).events :=
+  P6.ready_of_connector6 tl sched w hrun s h1 h2
+
+/-- … exactly once (with C01's "at most once") -/
+theorem C02_ready_exactly_once6 (tl : Bool) (sched : List (Move (proto6 tl))) (w : World (proto6 tl))
+    (hrun : NetSim.run (World.init (proto6 tl)) sched = some w) (s : Side) {t : Option Nat} {o : Tw.Conn.Online}
+    (h1 : (w.get s).conn.state = .online t o) (h2 : P6.hasConnect (w.get s)) :
+    readyCount (w.get s).events = 1 :=
+  P6.ready_exactly_once6 tl sched w hrun s h1 h2
+
+/-- no acceptor is online while its peer is still connecting (every reachable world) -/
+theorem C02_no_online_acceptor_while_connecting6 (tl : Bool) (sched : List (Move (proto6 tl)))
+    (w : World (proto6 tl)) (hrun : NetSim.run (World.init (proto6 tl)) sched = some w) (s : Side)
+    (h1 : (w.get s).conn.state = .connecting) (h2 : ¬ P6.hasConnect (w.get s.other)) (t : Option Nat)
+    (o : Tw.Conn.Online) : (w.get s.other).conn.state ≠ .online t o :=
+  P6.no_online_acceptor_while_connecting6 tl sched w hrun s h1 h2 t o
+
+/-- **0.6, handshake and online phase composed — the full progress statement for 0.6**: from every
+world reachable by an admissible schedule (arbitrary loss, duplication, reordering, delay and
+application calls) in which `a` has called `connect`, `b` has not (`C02_simultaneous_open6_witness`
+shows the roles are necessary) and nobody is disconnected, at most **five** rounds of the fair suffix
+— every datagram delivered once in order, both sides tick at their reported deadline; the acceptor's
+random source can produce a token — end with `a` online and told `Ready`, everything handed over and
+acknowledged on both sides, all queues empty (`quiescentH`: `b` is still `Pending` if `a` never sent
+a chunk).  No shape hypothesis on the starting world. -/
+theorem C02_open_progress6 (tl : Bool) (draws : List Nat) (alt : (proto6 tl).Alt) (nt : Nat)
+    (hnt : Tw.Conn6.tokenRandom draws = some nt) (sched : List (Move (proto6 tl))) (w : World (proto6 tl))
+    (hadm : admissible (World.init (proto6 tl)) sched = true)
+    (hrun : NetSim.run (World.init (proto6 tl)) sched = some w)
+    (ha : P6.hasConnect w.a) (hb : ¬ P6.hasConnect w.b)
+    (hda : w.a.conn.state ≠ .disconnected) (hdb : w.b.conn.state ≠ .disconnected) :
+    ∃ k, k ≤ 5 ∧ ∃ s', fairRoundsT draws alt k (FairState.start w) = some s' ∧ s'.w.quiescentH ∧
+      (∃ t o s, s'.w.a.conn = ⟨.online t o, s⟩) ∧ Tw.Conn.Event.ready ∈ s'.w.a.events :=
+  P6.open_progress6 tl draws alt nt hnt sched w hadm hrun ha hb hda hdb
+
+/-! #### handshake + online phase, from any reachable world (0.7) -/
+
+/-- **0.7, handshake and online phase composed — the full progress statement for 0.7**: from every
+world reachable by an admissible schedule in which `a` has called `connect` and `b` has not (role
+hypothesis on the schedule: `P7.connects`) and nobody is disconnected, at most **six** rounds of the
+fair suffix (the acceptor's random source can produce a token) end with `a` online and told `Ready`,
+everything handed over and acknowledged, all queues empty.  No exclusion for D23 is needed: the
+missing timer of `PendingConnect` is harmless under the fair suffix because the connector
+retransmits its token request and the acceptor answers each one. -/
+theorem C02_open_progress7 (draws : List Nat) (nt : Nat) (hnt : Tw.Conn7.tokenRandom draws = some nt)
+    (sched : List (Move proto7)) (w : World proto7)
+    (hadm : admissible (World.init proto7) sched = true)
+    (hrun : NetSim.run (World.init proto7) sched = some w)
+    (hca : P7.connects .a sched = true) (hcb : P7.connects .b sched = false)
+    (hda : w.a.conn.state ≠ .disconnected) (hdb : w.b.conn.state ≠ .disconnected) :
+    ∃ k, k ≤ 6 ∧ ∃ s', fairRoundsT draws () k (FairState.start w) = some s' ∧ s'.w.quiescentH ∧
+      (∃ o t c s, s'.w.a.conn = ⟨.online o t c, s⟩) ∧ Tw.Conn.Event.ready ∈ s'.w.a.events :=
+  P7.open_progress7 draws nt hnt sched w hadm hrun hca hcb hda hdb
+
+/-- every such reachable world is in one of the handshake shapes (`P7.Shape`: token × {unconnected,
+pendingConnect}, connecting × {pendingConnect, pending}, online+Ready × {pending, online}) with matching
+token pairs and own tokens different from `TOKEN_NONE` -/
+theorem C02_handshake_shapes7 (sched : List (Move proto7)) (w : World proto7)
+    (hrun : NetSim.run (World.init proto7) sched = some w)
+    (hca : P7.connects .a sched = true) (hcb : P7.connects .b sched = false)
+    (hda : w.a.conn.state ≠ .disconnected) (hdb : w.b.conn.state ≠ .disconnected) : P7.Shape w :=
+  P7.shape_of_reachable sched w hrun hca hcb hda hdb
+
+/-- an online 0.7 connector has been told `Ready`, and its peer is pending, online or disconnected -/
+theorem C02_ready_of_connector7 (sched : List (Move proto7)) (w : World proto7)
+    (hrun : NetSim.run (World.init proto7) sched = some w) (hca : P7.connects .a sched = true)
+    {o t : Nat} {c : Tw.Conn.Online} (h : w.a.conn.state = .online o t c) :
+    Tw.Conn.Event.ready ∈ w.a.events ∧
+      (P7.tag w.b.conn.state = 4 ∨ P7.tag w.b.conn.state = 5 ∨ P7.tag w.b.conn.state = 6) :=
+  P7.ready_of_connector7 sched w hrun hca h
+
+/-- … exactly once -/
+theorem C02_ready_exactly_once7 (sched : List (Move proto7)) (w : World proto7)
+    (hrun : NetSim.run (World.init proto7) sched = some w) (hca : P7.connects .a sched = true)
+    {o t : Nat} {c : Tw.Conn.Online} (h : w.a.conn.state = .online o t c) : readyCount w.a.events = 1 :=
+  P7.ready_exactly_once7 sched w hrun hca h
 
 end Timed
 
